@@ -1120,3 +1120,38 @@ class ExitStatusMonitor(Monitor):
                 world.count("probe.pending_bucket_inputs")
             if summary.resources:
                 world.count("probe.pending_bucket_resources")
+
+
+# =============================================================================================
+# Ownership history: which paths StepUp ever recorded as (volatile) outputs, with which digest
+# =============================================================================================
+
+
+class OutputRecorder(Monitor):
+    """Per universe: path -> (role, last recorded content digest) over all commits."""
+
+    name = "outputs"
+
+    def __init__(self):
+        super().__init__()
+        self.recorded = {}  # path -> {"role": "out"|"vol", "digest": hex16|None}
+        self.ever_declared = set()  # paths ever attached in an output/volatile role
+        self.ever_static = set()
+
+    def on_commit(self, world, prev, snap, info):
+        for i, (state, hj) in snap.files.items():
+            n = snap.nodes.get(i)
+            if n is None:
+                continue
+            path = n[1]
+            if state in (F["BUILT"], F["OUTDATED"]):
+                if hj is not None:
+                    self.recorded[path] = {"role": "out", "digest": _hex_digest(hj)}
+                self.ever_declared.add(path)
+            elif state == F["VOLATILE"]:
+                self.recorded[path] = {"role": "vol", "digest": None}
+                self.ever_declared.add(path)
+            elif state == F["PLANNED"] and not n[3]:
+                self.ever_declared.add(path)
+            elif state in (F["CONFIRMED"], F["MISSING"], F["UNCONFIRMED"]) and not n[3]:
+                self.ever_static.add(path)
